@@ -54,7 +54,7 @@ def reference_leaf(v):
 
 
 def check(run):
-    for cfg in ("A", "D"):
+    for cfg in run.cfgs("A", "D"):
         F = run.facts(cfg)
         run.guard("C02.1.dispatch", cfg, lambda: rule_dispatch(run, F, cfg))
         run.guard("C02.1.leaves", cfg, lambda: rule_leaves(run, F, cfg))
